@@ -81,6 +81,15 @@ Proof. destruct a, b; cbn; try discriminate; reflexivity. Qed.
 Lemma jkind_eqb_eq : forall a b, jkind_eqb a b = true -> a = b.
 Proof. destruct a, b; cbn; try discriminate; reflexivity. Qed.
 
+Lemma hops_eqb_eq : forall a b, hops_eqb a b = true -> a = b.
+Proof.
+  intros [m1 x1 p1] [m2 x2 p2]. unfold hops_eqb. cbn [h_min h_max h_path].
+  rewrite !andb_true_iff. intros [[H1 H2] H3].
+  apply Nat.eqb_eq in H1. apply ostr_eqb_eq in H3. subst.
+  destruct x1 as [a|], x2 as [b|]; cbn [onat_eqb] in H2; try discriminate; [|reflexivity].
+  apply Nat.eqb_eq in H2. subst. reflexivity.
+Qed.
+
 Lemma plan_eqb_eq : forall a b, plan_eqb a b = true -> a = b.
 Proof.
   induction a; destruct b; cbn [plan_eqb]; try discriminate; rewrite ?andb_true_iff; intros H;
@@ -90,6 +99,7 @@ Proof.
       | H : ostr_eqb _ _ = true |- _ => apply ostr_eqb_eq in H
       | H : dir_eqb _ _ = true |- _ => apply dir_eqb_eq in H
       | H : jkind_eqb _ _ = true |- _ => apply jkind_eqb_eq in H
+      | H : hops_eqb _ _ = true |- _ => apply hops_eqb_eq in H
       | H : expr_eqb _ _ = true |- _ => apply expr_eqb_eq in H
       | H : Bool.eqb _ _ = true |- _ => apply Bool.eqb_prop in H
       | H : Nat.eqb _ _ = true |- _ => apply Nat.eqb_eq in H
@@ -403,4 +413,211 @@ Proof.
   - apply plans_perm_perm, EL.
   - apply uniform_jl. assumption.
   - rewrite <- schema_jl. apply nodupb_NoDup. assumption.
+Qed.
+
+(** ** bag equality through Distinct and Aggregate (above a reordered join tree) *)
+Lemma val_eqb_refl : forall a, val_eqb a a = true.
+Proof.
+  destruct a; cbn [val_eqb]; try reflexivity;
+    try apply Z.eqb_refl; try apply String.eqb_refl. destruct b; reflexivity.
+Qed.
+
+Lemma row_eqb_eq : forall a b, row_eqb a b = true -> a = b.
+Proof.
+  induction a as [|[k v] a IH]; destruct b as [|[k' v'] b]; cbn [row_eqb]; try discriminate; [reflexivity|].
+  intros H. apply andb_true_iff in H as [H H3]. apply andb_true_iff in H as [H1 H2].
+  apply String.eqb_eq in H1. apply val_eqb_eq in H2. rewrite (IH _ H3). congruence.
+Qed.
+
+Lemma row_eqb_refl : forall a, row_eqb a a = true.
+Proof.
+  induction a as [|[k v] a IH]; cbn [row_eqb]; [reflexivity|].
+  rewrite String.eqb_refl, val_eqb_refl, IH. reflexivity.
+Qed.
+
+Lemma existsb_row_eqb : forall r seen, existsb (row_eqb r) seen = true <-> In r seen.
+Proof.
+  intros r seen. rewrite existsb_exists. split.
+  - intros (x & Hx & E). apply row_eqb_eq in E. subst. exact Hx.
+  - intros H. exists r. split; [exact H|apply row_eqb_refl].
+Qed.
+
+Lemma dedup_In_iff : forall rs seen r, In r (dedup seen rs) <-> In r rs /\ ~ In r seen.
+Proof.
+  induction rs as [|x rs IH]; intros seen r; cbn [dedup In]; [tauto|].
+  destruct (existsb (row_eqb x) seen) eqn:E.
+  - apply existsb_row_eqb in E. rewrite IH. split.
+    + intros [H1 H2]. tauto.
+    + intros [[->|H1] H2]; [contradiction|tauto].
+  - assert (~ In x seen) as Nx by (rewrite <- existsb_row_eqb, E; discriminate).
+    cbn [In]. rewrite IH. cbn [In]. split.
+    + intros [<-|[H1 H2]]; [tauto|]. split; [tauto|]. intros H. apply H2. right. exact H.
+    + intros [[<-|H1] H2]; [left; reflexivity|].
+      destruct (row_eqb x r) eqn:Ex; [apply row_eqb_eq in Ex; left; exact Ex|].
+      right. split; [exact H1|]. intros [<-|H]; [rewrite row_eqb_refl in Ex; discriminate|contradiction].
+Qed.
+
+Lemma dedup_NoDup : forall rs seen, NoDup (dedup seen rs).
+Proof.
+  induction rs as [|x rs IH]; intros seen; cbn [dedup]; [constructor|].
+  destruct (existsb (row_eqb x) seen); [apply IH|].
+  constructor; [|apply IH]. rewrite dedup_In_iff. cbn [In]. tauto.
+Qed.
+
+Lemma dedup_perm : forall a b, Permutation a b -> Permutation (dedup [] a) (dedup [] b).
+Proof.
+  intros a b P. apply NoDup_Permutation; try apply dedup_NoDup.
+  intros r. rewrite !dedup_In_iff. cbn [In]. split; intros [H N]; split; try exact N.
+  - eapply Permutation_in; eauto.
+  - eapply Permutation_in; [apply Permutation_sym|]; eauto.
+Qed.
+
+Lemma NoDup_map_inj_in : forall {A B} (f : A -> B) l,
+  (forall a b, In a l -> In b l -> f a = f b -> a = b) -> NoDup l -> NoDup (map f l).
+Proof.
+  intros A B f l; induction l as [|x l IH]; cbn [map]; intros Inj N; [constructor|].
+  inversion N as [|? ? Nx Nl]; subst. constructor.
+  - intros H. apply in_map_iff in H as (y & E & Hy). apply Nx.
+    rewrite (Inj x y); [exact Hy|left; reflexivity|right; exact Hy|symmetry; exact E].
+  - apply IH; [|exact Nl]. intros a b Ha Hb. apply Inj; right; assumption.
+Qed.
+
+(** DISTINCT through a key under which the rows of either list are told apart *)
+Lemma dedup_perm_key : forall {K} (c : row -> K) l1 l2,
+  (forall a b, In a l1 -> In b l1 -> c a = c b -> a = b) ->
+  (forall a b, In a l2 -> In b l2 -> c a = c b -> a = b) ->
+  Permutation (map c l1) (map c l2) ->
+  Permutation (map c (dedup [] l1)) (map c (dedup [] l2)).
+Proof.
+  intros K c l1 l2 I1 I2 P.
+  assert (forall l r, In r (dedup [] l) -> In r l) as Sub.
+  { intros l r H. apply dedup_In_iff in H. tauto. }
+  assert (forall l k, In k (map c (dedup [] l)) <-> In k (map c l)) as M.
+  { intros l k. rewrite !in_map_iff. split; intros (r & E & H); exists r; split; try exact E.
+    - apply Sub, H.
+    - apply dedup_In_iff. cbn [In]. tauto. }
+  apply NoDup_Permutation.
+  - apply NoDup_map_inj_in; [|apply dedup_NoDup]. intros a b Ha Hb. apply I1; apply Sub; assumption.
+  - apply NoDup_map_inj_in; [|apply dedup_NoDup]. intros a b Ha Hb. apply I2; apply Sub; assumption.
+  - intros k. rewrite !M. split; intros H.
+    + eapply Permutation_in; eauto.
+    + eapply Permutation_in; [apply Permutation_sym|]; eauto.
+Qed.
+
+(** the key: what a fixed list of columns reads *)
+Definition ckey (ks : list var) (r : row) : list (var * option val) := map (fun k => (k, lookup k r)) ks.
+Definition row_of (k : list (var * option val)) : row :=
+  flat_map (fun kv => match snd kv with Some v => [(fst kv, v)] | None => [] end) k.
+
+Lemma ckey_respects : forall ks, respects (ckey ks).
+Proof. intros ks a b E. unfold ckey. apply map_ext. intros k. rewrite E. reflexivity. Qed.
+
+Lemma lookup_row_of : forall ks r x,
+  lookup x (row_of (ckey ks r)) = if mem x ks then lookup x r else None.
+Proof.
+  induction ks as [|k ks IH]; intros r x; [reflexivity|].
+  unfold ckey, row_of in *. cbn [map flat_map snd fst mem]. rewrite lookup_app.
+  destruct (lookup k r) as [v|] eqn:L; cbn [lookup].
+  - destruct (String.eqb k x) eqn:E; cbn [orb].
+    + apply String.eqb_eq in E. subst. rewrite L. reflexivity.
+    + apply IH.
+  - rewrite IH. destruct (String.eqb k x) eqn:E; cbn [orb]; [|reflexivity].
+    apply String.eqb_eq in E. subst. rewrite L. destruct (mem x ks); reflexivity.
+Qed.
+
+Lemma row_of_ckey_equiv : forall ks r, incl (keys r) ks -> row_equiv (row_of (ckey ks r)) r.
+Proof.
+  intros ks r I x. rewrite lookup_row_of. destruct (mem x ks) eqn:M; [reflexivity|].
+  symmetry. apply lookup_not_key. apply mem_false_In. intros H. apply mem_false_In in M. apply M, I, H.
+Qed.
+
+Lemma rows_eq_lookup : forall r r',
+  keys r = keys r' -> NoDup (keys r) -> (forall k, In k (keys r) -> lookup k r = lookup k r') -> r = r'.
+Proof.
+  induction r as [|[k v] r IH]; destruct r' as [|[k' v'] r']; cbn [keys map fst]; try discriminate; [reflexivity|].
+  intros E N L. injection E as E1 E2. subst k'. inversion N as [|? ? Nk Nr]; subst.
+  assert (v = v') as ->.
+  { specialize (L k (or_introl eq_refl)). cbn [lookup] in L. rewrite String.eqb_refl in L. congruence. }
+  f_equal. apply IH; [exact E2|exact Nr|].
+  intros x Hx. specialize (L x (or_intror Hx)). cbn [lookup] in L.
+  destruct (String.eqb k x) eqn:Ex; [|exact L].
+  apply String.eqb_eq in Ex. subst. contradiction.
+Qed.
+
+Lemma ckey_inj : forall ks r r',
+  keys r = keys r' -> NoDup (keys r) -> incl (keys r) ks -> ckey ks r = ckey ks r' -> r = r'.
+Proof.
+  intros ks r r' E N I C. apply rows_eq_lookup; [exact E|exact N|].
+  intros k Hk. apply I in Hk. unfold ckey in C.
+  assert (forall l, map (fun k => (k, lookup k r)) l = map (fun k => (k, lookup k r')) l ->
+                    forall k, In k l -> lookup k r = lookup k r') as P.
+  { induction l as [|y l IHl]; cbn [map In]; intros H z Hz; [destruct Hz|].
+    injection H as H1 H2. destruct Hz as [<-|Hz]; [exact H1|apply IHl; assumption]. }
+  apply (P ks C k Hk).
+Qed.
+
+Theorem bag_eqv_dedup : forall l1 l2 ks1 ks2,
+  NoDup ks1 -> NoDup ks2 ->
+  (forall r, In r l1 -> keys r = ks1) -> (forall r, In r l2 -> keys r = ks2) ->
+  bag_eqv l1 l2 -> bag_eqv (dedup [] l1) (dedup [] l2).
+Proof.
+  intros l1 l2 ks1 ks2 N1 N2 K1 K2 H T f Rf.
+  set (c := ckey (ks1 ++ ks2)).
+  assert (Permutation (map c (dedup [] l1)) (map c (dedup [] l2))) as P.
+  { apply dedup_perm_key.
+    - intros a b Ha Hb. apply ckey_inj; rewrite ?(K1 a Ha), ?(K1 b Hb); auto using incl_appl, incl_refl.
+    - intros a b Ha Hb. apply ckey_inj; rewrite ?(K2 a Ha), ?(K2 b Hb); auto using incl_appr, incl_refl.
+    - apply H, ckey_respects. }
+  assert (forall l ks, (forall r, In r l -> keys r = ks) -> incl ks (ks1 ++ ks2) ->
+                       map f (dedup [] l) = map (fun k => f (row_of k)) (map c (dedup [] l))) as E.
+  { intros l ks Kl I. rewrite map_map. apply map_ext_in. intros r Hr. apply Rf.
+    intros x. symmetry. apply row_of_ckey_equiv. rewrite (Kl r); [exact I|].
+    apply dedup_In_iff in Hr. tauto. }
+  rewrite (E l1 ks1 K1), (E l2 ks2 K2); auto using incl_appl, incl_appr, incl_refl.
+  apply Permutation_map, P.
+Qed.
+
+(** aggregation only looks at the bag *)
+Lemma bag_eqv_length : forall l1 l2, bag_eqv l1 l2 -> List.length l1 = List.length l2.
+Proof.
+  intros l1 l2 H. specialize (H unit (fun _ => tt) (fun _ _ _ => eq_refl)).
+  apply Permutation_length in H. rewrite !map_length in H. exact H.
+Qed.
+
+Lemma proj_cell_respects : forall G e, respects (proj_cell G e).
+Proof.
+  intros G e a b E. unfold proj_cell.
+  assert (eval G e a = eval G e b) as Ev by (apply eval_ext; intros v _; apply E).
+  destruct e; rewrite ?Ev; try reflexivity. rewrite (E x). reflexivity.
+Qed.
+
+Lemma group_key_respects : forall G groups, respects (group_key G groups).
+Proof.
+  intros G groups a b E. unfold group_key. apply map_ext. intros e.
+  rewrite (proj_cell_respects G e a b E). reflexivity.
+Qed.
+
+Lemma agg_value_bag : forall G a l1 l2, bag_eqv l1 l2 -> agg_value G a l1 = agg_value G a l2.
+Proof.
+  intros G a l1 l2 H. destruct a as [|e]; cbn [agg_value]; f_equal; f_equal.
+  - apply bag_eqv_length, H.
+  - apply bag_eqv_length, bag_eqv_filter; [|exact H].
+    intros x y E. rewrite (proj_cell_respects G e x y E). reflexivity.
+Qed.
+
+Theorem agg_rows_bag : forall G groups aggs l1 l2,
+  bag_eqv l1 l2 -> Permutation (agg_rows G groups aggs l1) (agg_rows G groups aggs l2).
+Proof.
+  intros G groups aggs l1 l2 H. unfold agg_rows. destruct groups as [|g gs].
+  - assert (map (fun a => (agg_name a, agg_value G (fst a) l1)) aggs
+            = map (fun a => (agg_name a, agg_value G (fst a) l2)) aggs) as ->; [|apply Permutation_refl].
+    apply map_ext. intros a. rewrite (agg_value_bag G (fst a) l1 l2 H). reflexivity.
+  - set (K := group_key G (g :: gs)).
+    set (h := fun (l : list row) (k : row) =>
+                k ++ map (fun a => (agg_name a, agg_value G (fst a) (filter (fun r => row_eqb (K r) k) l))) aggs).
+    change (Permutation (map (h l1) (dedup [] (map K l1))) (map (h l2) (dedup [] (map K l2)))).
+    assert (forall k, h l1 k = h l2 k) as Eh.
+    { intros k. unfold h. f_equal. apply map_ext. intros a. f_equal. apply agg_value_bag.
+      apply bag_eqv_filter; [|exact H]. intros x y E. unfold K. rewrite (group_key_respects G _ x y E). reflexivity. }
+    rewrite (map_ext _ _ Eh). apply Permutation_map, dedup_perm. apply H. apply group_key_respects.
 Qed.
